@@ -187,7 +187,17 @@ func verifC01schedule() {
 // points. Writer k writes the bytes k<<4|0, k<<4|1, ... so the oracle can tell the sources
 // apart (contents are covered symbolically by VerifC01History).
 func VerifC01Threads() {
-	nw, chunks, clen, rmax, max := rt.Param("writers"), rt.Param("chunks"), rt.Param("len"), rt.Param("r"), rt.Param("max")
+	verifC01threads(rt.Param("writers"), rt.Param("chunks"), rt.Param("len"), rt.Param("r"), rt.Param("max"))
+}
+
+// VerifC01Backpressure: the same with one writer whose writes exceed the threshold, so that
+// the writer must block on the full pipe and be released by the reader.
+func VerifC01Backpressure() {
+	rt.Assume(rt.Param("max") > 0 && rt.Param("chunks")*rt.Param("len") > rt.Param("max"))
+	verifC01threads(1, rt.Param("chunks"), rt.Param("len"), rt.Param("r"), rt.Param("max"))
+}
+
+func verifC01threads(nw, chunks, clen, rmax, max int) {
 	s := verifC01new(max)
 	verifC01schedule()
 
